@@ -23,7 +23,7 @@ REFS = {
     'mystic.math.distance:manhattan':
         'def manhattan(x, xp=None, pair=False, dmin=0, axis=None):\n    return minkowski(x, xp, pair=pair, dmin=dmin, p=1, axis=axis)\n',
     'mystic.math.distance:absolute_distance':
-        'def absolute_distance(x, xp=None, pair=False, dmin=0):\n    from numpy import abs, asarray, newaxis as nwxs, zeros_like\n    x = asarray(x)\n    if x.dtype.kind in \'iub\':\n        x = x.astype(float)\n    xp = x if xp is None else asarray(xp)\n    if xp.dtype.kind in \'iub\':\n        xp = xp.astype(float)\n    xsize = max(len(x.shape), len(xp.shape), dmin)\n    while len(x.shape) < xsize:\n        x = x[nwxs]\n    while len(xp.shape) < xsize:\n        xp = xp[nwxs]\n    if pair:\n        return abs(x.T - xp.T).T\n    xsl = (slice(None),) * xsize + (None,)\n    xpsl = (slice(None),) * max(0, xsize - 1) + (None,)\n    return abs(x.T[xsl] - xp.T[xpsl])\n',
+        'def absolute_distance(x, xp=None, pair=False, dmin=0):\n    from numpy import abs, asarray, newaxis as nwxs, zeros_like\n    x = asarray(x)\n    if x.dtype.kind != \'c\':\n        x = x.astype(float)\n    xp = x if xp is None else asarray(xp)\n    if xp.dtype.kind != \'c\':\n        xp = xp.astype(float)\n    xsize = max(len(x.shape), len(xp.shape), dmin)\n    while len(x.shape) < xsize:\n        x = x[nwxs]\n    while len(xp.shape) < xsize:\n        xp = xp[nwxs]\n    if pair:\n        return abs(x.T - xp.T).T\n    xsl = (slice(None),) * xsize + (None,)\n    xpsl = (slice(None),) * max(0, xsize - 1) + (None,)\n    return abs(x.T[xsl] - xp.T[xpsl])\n',
     'mystic.math.measures:support_index':
         'def support_index(weights, tol=0):\n    return [i for i, w in enumerate(weights) if w > tol]\n',
     'mystic.math.measures:support':
